@@ -11,7 +11,11 @@ FINISH = dict(level="proof", rule=(
     "dangling) and parent directories that are absent / present / a regular file; then one Open batch of 0..64 items "
     "(5 flag words, MkdirAll on/off, repeated paths), a re-open of every returned file (identity), a kinds probe, a "
     "Symlink batch and Deletes.  Non-trivial: a batch with at least one failing and one succeeding item; distinct = "
-    "distinct (state, batch) pairs."))
+    "distinct (state, batch) pairs.  Long batches: 65..400 items (at most 250 succeeding) over planted states, failing items "
+    "placed late / sparsely / in blocks / everywhere, for every failure reason; every result must carry exactly one of file and "
+    "error, the k-th one as the state at the k-th path implies, the error naming the k-th path, the descriptor being the file "
+    "the host sees at the k-th path (inode and a token written through it); no descriptor may stay open in the caller; a "
+    "short batch and a Ping afterwards."))
 
 HDR = "From GS Require Import Container.Batch Container.BatchProofs Container.EvalBatch.\n"
 O_CREAT, O_EXCL, O_TRUNC = 0o100, 0o200, 0o1000
@@ -88,8 +92,101 @@ def err_class(s):
     return 9
 
 
+LONG_SIZES = [65, 96, 100, 127, 128, 129, 130, 160, 192, 200, 250, 255, 256, 257, 300, 320, 384, 400]
+LONG_PATTERNS = ["late", "sparse", "last", "scattered", "blocks", "alternating", "early"]
+MAX_OK = 250            # one reply cannot carry more than 253 descriptors (known finding, its own scenario below)
+OK_FLAGS_NEW = [0o1101, 0o102, 0o301, 0o400102]
+OK_FLAGS_REG = [0, 1, 0o1101, 0o102, 0o400000, 0o400001, 0o404000, 0o400102, 0o4000, 2]
+VIEW_KIND = {"reg": "reg", "dir": "dir", "fifo": "fifo", "sock": "sock", "sym_secret": "sym", "sym_dangling": "sym", "sym_dir": "sym", "absent": "absent"}
+
+
+def long_fail_set(r, n, pattern):
+    if pattern == "late":
+        lo = n - max(1, n // r.choice([3, 4, 8]))
+        return set(r.sample(range(lo, n), min(n - lo, r.randint(1, 8))))
+    if pattern == "sparse":
+        return set(r.sample(range(n), r.randint(1, 3)))
+    if pattern == "last":
+        return {n - 1} | ({n - 2} if r.random() < 0.3 else set())
+    if pattern == "early":
+        return set(r.sample(range(min(n, 60)), r.randint(1, 6)))
+    if pattern == "scattered":
+        p = r.choice([0.05, 0.15, 0.4])
+        return set(k for k in range(n) if r.random() < p) or {r.randrange(n)}
+    if pattern == "alternating":
+        ph = r.randint(0, 1)
+        return set(k for k in range(n) if k % 2 == ph)
+    f, k, bad = set(), 0, r.random() < 0.5        # blocks
+    while k < n:
+        ln = r.randint(1, 40)
+        if bad:
+            f |= set(range(k, min(n, k + ln)))
+        k += ln
+        bad = not bad
+    return f or {n - 1}
+
+
+def long_scenario(r):
+    """one long batch over a planted state: (plants, state, items, pattern)"""
+    n = r.choice(LONG_SIZES) if r.random() < 0.7 else r.randint(65, 400)
+    pattern = r.choice(LONG_PATTERNS)
+    fails = long_fail_set(r, n, pattern)
+    state = {"/w/secret": "reg", "/w/L": "dir", "/w/R": "reg"}
+    plants = ["reg", "/w/secret", "TOP", "dir", "/w/L", "-", "many", "/w/L", str(n), "reg", "/w/R", "x"]
+    for k in range(n):
+        state["/w/L/f%d" % k] = "reg"
+    fresh = [0]
+
+    def failing_item(k):
+        why = r.choice(["sym_secret", "sym_dangling", "sym_dir", "fifo", "dir", "sock", "missing", "excl", "notdir", "mkdir-notdir", "noparent"])
+        fresh[0] += 1
+        if why in ("sym_secret", "sym_dangling", "sym_dir", "fifo", "dir", "sock"):
+            p = "/w/L/g%d" % fresh[0]
+            state[p] = why
+            plants.extend(plant_args(p, why))
+            return {"path": p, "flag": r.choice(FLAGS), "perm": 0o644, "mkdirall": r.random() < 0.2}
+        if why == "missing":
+            return {"path": "/w/L/m%d" % fresh[0], "flag": r.choice([0, 1, 2, 0o400000]), "perm": 0o644, "mkdirall": r.random() < 0.2}
+        if why == "excl":
+            return {"path": "/w/L/f%d" % k, "flag": 0o301, "perm": 0o644, "mkdirall": False}
+        if why == "notdir":
+            return {"path": "/w/R/x%d" % fresh[0], "flag": r.choice(FLAGS), "perm": 0o644, "mkdirall": False}
+        if why == "mkdir-notdir":
+            return {"path": "/w/R/y%d" % fresh[0], "flag": r.choice(FLAGS), "perm": 0o644, "mkdirall": True}
+        return {"path": "/w/A%d/z" % fresh[0], "flag": 0o102, "perm": 0o644, "mkdirall": False}
+
+    def good_item(k):
+        c = r.random()
+        if c < 0.5:
+            return {"path": "/w/L/f%d" % k, "flag": r.choice(OK_FLAGS_REG), "perm": 0o644, "mkdirall": r.random() < 0.2}
+        if c < 0.85:
+            return {"path": "/w/L/n%d" % k, "flag": r.choice(OK_FLAGS_NEW), "perm": 0o600, "mkdirall": r.random() < 0.2}
+        return {"path": "/w/M%d/x" % (k % 5), "flag": r.choice([0o102, 0o1101]), "perm": 0o600, "mkdirall": True} if c < 0.95 else \
+               {"path": "/w/L/f%d" % r.randrange(n), "flag": r.choice([0, 2]), "perm": 0, "mkdirall": False}      # a path that may occur twice
+
+    items = [failing_item(k) if k in fails else good_item(k) for k in range(n)]
+    while True:
+        st = dict(state)
+        codes = [sim_open(st, it)[1] for it in items]
+        oks = [k for k, cd in enumerate(codes) if cd == 0]
+        if len(oks) <= MAX_OK:
+            break
+        for k in r.sample(oks, len(oks) - MAX_OK):       # more successes than one reply can carry: some more items fail
+            items[k] = failing_item(k)
+    return plants, state, items, pattern
+
+
+def obs_class(x):
+    if x.get("file") and x.get("err") is None:
+        return 0
+    if x.get("err") is not None and not x.get("file"):
+        return err_class(x["err"])
+    return 9
+
+
 def run(c):
     exe = c.build_harness("h_env")
+    exe14 = c.build_harness("h_c14")
     c.build_probe("target")
     scratch = c.tmpdir("scratch")
     env = dict(os.environ, VERIF_SCRATCH=scratch)
@@ -258,6 +355,118 @@ def run(c):
             if st.get(p, "absent") != k.split(":")[0]:
                 c.finding_or_violation({"kind": "state-after-history", "path": p, "expected": st.get(p, "absent"), "observed": k},
                                        {"ops": case["ops"]})
+    # ---- long batches (65..400 items) over planted states, failures anywhere -- in particular late in the batch
+    rl = c.rng("long-batches")
+    nlong = 14 if c.quick() else 120
+    lcases, lmetas = [], []
+    while len(lcases) < nlong:
+        plants, state, items, pattern = long_scenario(rl)
+        if sum(len(a) + 3 for a in plants) > 20000 or sum(len(i["path"]) + 60 for i in items) > 28000:
+            continue        # the request would not fit into one message (a limit of the transport, C10)
+        st = dict(state)
+        envs, codes = [], []
+        for it in items:
+            e, code = sim_open(st, it)
+            envs.append(e)
+            codes.append(code)
+        cnt = {}
+        for it in items:
+            cnt[it["path"]] = cnt.get(it["path"], 0) + 1
+        for k, (it, cd) in enumerate(zip(items, codes)):
+            if cd == 0 and cnt[it["path"]] == 1 and it["flag"] & 3 in (1, 2):
+                it["token"] = "item-%d;" % k
+        view = sorted(set([it["path"] for it in items] + [parent(it["path"]) for it in items] + ["/w/secret", "/w/nowhere", "/w/R"]))
+        after = [{"path": "/w/L/after-missing", "flag": 0, "perm": 0}, {"path": "/w/L/after-new", "flag": 0o102, "perm": 0o600, "token": "after"}]
+        ops = [{"op": "reset"}, {"op": "exec", "args": [T, "plant"] + plants}, {"op": "openx", "items": items, "view": view},
+               {"op": "ping"}, {"op": "openx", "items": after, "view": ["/w/L/after-missing", "/w/L/after-new"]}, {"op": "ping"}]
+        lcases.append({"id": len(lcases), "ops": ops})
+        lmetas.append({"state": state, "after_state": st, "items": items, "envs": envs, "codes": codes, "view": view, "pattern": pattern})
+    c.log("long batches: %d scenarios, %d items" % (nlong, sum(len(m["items"]) for m in lmetas)))
+    lobs = c.run_harness(exe14, lcases, env=env, timeout=900)
+    c.log("long batches run")
+    for case, meta, o in zip(lcases, lmetas, lobs):
+        if "harness_err" in o:
+            raise RuntimeError(o["harness_err"])
+        if o.get("skipped_after_hangs"):
+            continue
+        items, codes, n = meta["items"], meta["codes"], len(meta["items"])
+        fidx = [k for k, cd in enumerate(codes) if cd != 0]
+        shape = {"items": n, "failing_items": len(fidx), "first_failing_index": fidx[0] if fidx else None, "last_failing_index": fidx[-1] if fidx else None,
+                 "placement": meta["pattern"]}
+        c.count(json.dumps([meta["state"], items], sort_keys=True), nontrivial=bool(fidx) and len(fidx) < n,
+                klass="long-batch:%s:%s" % (meta["pattern"], "<=128" if n <= 128 else "<=256" if n <= 256 else ">256"))
+        lc = lambda what, **kw: dict({"kind": "open-batch", "what": what, "long_batch": True}, **kw)
+        hist = {"history": case["ops"], "batch_shape": shape, "expected_classes (0 = a file; 1 mkdir, 2 lstat, 3 not regular, 4 open error)": codes}
+        ob = o["obs"]
+        if o.get("hang"):
+            c.finding_or_violation(lc("a call never returned (the environment is blocked from then on)", call=ob[-1]["op"] if ob else "?"),
+                                   dict(hist, observed=ob[-1:]), klass="long:hang")
+            continue
+        o_plant, o_open, o_ping, o_after, o_ping2 = ob[1], ob[2], ob[3], ob[4], ob[5]
+        if o_plant.get("exit") != 0 or o_plant.get("status") != 1:
+            raise RuntimeError("planting failed: %r" % o_plant)
+        if o_open["err"]:
+            c.finding_or_violation(lc("batch failed as a whole: " + o_open["err"][:120]), dict(hist, observed={k: v for k, v in o_open.items() if k != "view"}),
+                                   klass="long:whole")
+        else:
+            res = o_open["results"]
+            got = [obs_class(x) for x in res]
+            hist["observed_classes (9 = neither a file nor an error, or both)"] = got
+            coq_items.append("(%s, %s)" % (coq_list(["mkenv %s %s %d %s" % (coq_bool(a), coq_bool(b), l, coq_bool(d)) for a, b, l, d in meta["envs"]]),
+                                         coq_list([str(g) for g in got])))
+            if len(res) != n:
+                c.finding_or_violation(lc("result count differs from request count", requested=n, returned=len(res)), hist, klass="long:count")
+            vw = dict(zip(meta["view"], o_open["view"]))
+            for k, (itm, x, cd) in enumerate(zip(items, res, codes)):
+                kind_before = meta["state"].get(itm["path"], "absent")
+                at = lambda **kw: dict(hist, index=k, item=itm, expected="a file and no error" if cd == 0 else "an error (class %d) and no file" % cd,
+                                       observed=x, planted_at_path=kind_before, **kw)
+                if bool(x.get("file")) == (x.get("err") is not None):
+                    c.finding_or_violation(lc("a result carries %s" % ("both a file and an error" if x.get("file") else "neither a file nor an error")),
+                                           at(), klass="long:shape")
+                    continue
+                if (cd == 0) != bool(x.get("file")):
+                    c.finding_or_violation(lc("item outcome differs from what the planted state implies", expected_class=cd, planted=kind_before),
+                                           at(), klass="long:outcome")
+                    continue
+                if x.get("err") is not None:
+                    if itm["path"] not in x["err"] and parent(itm["path"]) not in x["err"]:
+                        c.finding_or_violation(lc("the k-th error is about another path"), at(), klass="long:errtext")
+                    continue
+                if kind_before not in ("absent", "reg"):
+                    c.finding_or_violation(lc("descriptor handed out for a planted object", planted=kind_before), at(), klass="long:planted")
+                if x.get("accmode") != itm["flag"] & 3 or not x.get("cloexec") or x.get("name") != itm["path"] or (x.get("mode", 0) & 0o170000) != 0o100000:
+                    c.finding_or_violation(lc("returned file has wrong mode/flags/name"), at(), klass="long:mode")
+                hv = vw.get(itm["path"], {})
+                if hv.get("kind") != "reg" or (hv.get("dev"), hv.get("ino")) != (x.get("dev"), x.get("ino")):
+                    c.finding_or_violation(lc("k-th descriptor is not the file at the k-th path"), at(host_view_of_path=hv), klass="long:identity")
+                elif "token" in itm and (x.get("write_err") is not None or not hv.get("head", "").startswith(itm["token"])):
+                    c.finding_or_violation(lc("what is written through the k-th descriptor does not arrive in the file at the k-th path"),
+                                           at(host_view_of_path=hv), klass="long:token")
+            # no effect besides the items' own: every path is afterwards what the sequential reading of the batch implies
+            for pth, hv in vw.items():
+                want = VIEW_KIND[meta["after_state"].get(pth, "absent")]
+                if hv.get("kind") != want:
+                    c.finding_or_violation(lc("state after the batch differs from the items' own effects", path=pth, expected=want, observed=hv.get("kind")), hist,
+                                           klass="long:state")
+            if vw["/w/secret"].get("head") != "TOP":
+                c.finding_or_violation({"kind": "planted-symlink-followed", "secret": vw["/w/secret"], "long_batch": True}, hist, klass="long:secret")
+            if o_open["fd_after"] > o_open["fd_before"]:
+                c.finding_or_violation(lc("descriptors received by the caller stay open although every returned file was closed",
+                                          left_open=o_open["fd_after"] - o_open["fd_before"]),
+                                       dict(hist, expected="as many open descriptors in the calling process after the call (all returned files closed) as before: %d" % o_open["fd_before"],
+                                            observed="%d open descriptors" % o_open["fd_after"]), klass="long:leak")
+            if o_open["call_ms"] > 20000:
+                c.finding_or_violation(lc("Open blocked (%d ms)" % o_open["call_ms"]), hist, klass="long:slow")
+        # the protocol is still in step: a short batch and a ping afterwards
+        ar = o_after.get("results") or []
+        if o_ping.get("err") or o_ping2.get("err") or o_after.get("err") or [obs_class(x) for x in ar] != [4, 0] or \
+                o_after["view"][1].get("head") != "after" or o_after["view"][0].get("kind") != "absent":
+            c.finding_or_violation({"kind": "environment-unusable-after-batch", "long_batch": True, "err": str(o_ping.get("err") or o_after.get("err") or o_ping2.get("err"))[:80]},
+                                   dict(hist, after_the_batch={"ping": o_ping, "open [missing file, new file]": o_after, "ping again": o_ping2},
+                                        expected="ping answered; [an open error, a file]; ping answered"), klass="long:after")
+    c.cov["long_batches"] = nlong
+    c.log("long batches evaluated")
     # ---- long histories of large batches (descriptor lifetime in init across garbage collections)
     rounds = 500 if c.quick() else 3000
     so = c.run_harness(exe, [{"id": 0, "ops": [{"op": "reset"}, {"op": "openstress", "rounds": rounds, "n": 250}, {"op": "reset"}, {"op": "ping"}]}],
